@@ -71,3 +71,4 @@ fn c02_cover_canary() {
     assert!(sig.generate_http_index_keys().len() == 1);
 }
 
+
